@@ -430,6 +430,88 @@ func (P *Program) runStructural(spec string) []StructObl {
 			return fail("no receive from %s found (renamed?)", fs[1])
 		}
 		return ok(fmt.Sprintf("%d receive site(s), all in %s", found, fs[2]))
+	case "supervised-handles":
+		// supervised-handles: every *govnr.ForeverHandle obtained in library code (from govnr.Forever or from a library
+		// function returning one) is handed to Supervise or returned to the caller (whose use is checked the same way).
+		// WaitUntilShutdown waits for exactly the supervised handles: a loop whose handle is dropped, or only marked, is a
+		// loop that shutdown does not wait for.
+		isHandle := func(t types.Type) bool {
+			return strings.HasSuffix(t.String(), "govnr.ForeverHandle")
+		}
+		found := 0
+		for _, fn := range P.allRepoFuncs() {
+			if !P.isLibrary(fn) {
+				continue
+			}
+			for _, b := range fn.Blocks {
+				for _, ins := range b.Instrs {
+					call, isCall := ins.(*ssa.Call)
+					if !isCall || !isHandle(call.Type()) {
+						continue
+					}
+					found++
+					seen := map[ssa.Value]bool{}
+					var reaches func(v ssa.Value, depth int) bool
+					reaches = func(v ssa.Value, depth int) bool {
+						if seen[v] || depth > 6 || v.Referrers() == nil {
+							return false
+						}
+						seen[v] = true
+						for _, ref := range *v.Referrers() {
+							switch r := ref.(type) {
+							case *ssa.Return:
+								return true
+							case ssa.CallInstruction:
+								c := r.Common()
+								name := ""
+								if c.IsInvoke() {
+									name = c.Method.Name()
+								} else if cal := c.StaticCallee(); cal != nil {
+									name = cal.Name()
+								}
+								isArg := false
+								for _, a := range c.Args {
+									if a == v {
+										isArg = true
+									}
+								}
+								if name == "Supervise" && isArg {
+									return true
+								}
+							case *ssa.Store:
+								if a, ok := r.Addr.(*ssa.Alloc); ok && r.Val == v {
+									for _, ar := range *a.Referrers() {
+										if ld, ok := ar.(*ssa.UnOp); ok && ld.Op == token.MUL && reaches(ld, depth+1) {
+											return true
+										}
+									}
+								}
+							case *ssa.Phi:
+								if reaches(r, depth+1) {
+									return true
+								}
+							case *ssa.MakeInterface:
+								if reaches(r, depth+1) {
+									return true
+								}
+							case *ssa.ChangeType:
+								if reaches(r, depth+1) {
+									return true
+								}
+							}
+						}
+						return false
+					}
+					if !reaches(call, 0) {
+						return fail("the loop handle obtained in %s at %s is neither handed to Supervise nor returned: shutdown does not wait for that loop", P.fnKey(fn), P.fset.Position(call.Pos()))
+					}
+				}
+			}
+		}
+		if found == 0 {
+			return fail("no supervised loop handle found (renamed?)")
+		}
+		return ok(fmt.Sprintf("%d loop handle(s), all supervised or returned", found))
 	case "goroutines-only-via":
 		// goroutines-only-via <callee=fn,fn;callee=fn,...>: library code contains no `go` statement, and the functions
 		// that start a goroutine (the supervisor, the timer) are called only from the listed functions.  The proofs of
